@@ -106,7 +106,8 @@ def get_field_reader(
             inner_type_reader = get_reader(
                 kafka_type=get_schema_field_type(field),
                 flexible=flexible,
-                optional=is_optional(field) and not is_tagged_field,
+                # A nullable tagged field can be sent explicitly as null.
+                optional=is_optional(field),
             )
         case PrimitiveTupleField():
             inner_type_reader = get_reader(
